@@ -111,6 +111,8 @@ def run(ctx):
                  "`gwf cancel` without targets and without --force does not ask for confirmation (aborting on decline) before cancelling", cc.where)
 
     ctx.structural_or_witness(r2, structural_r2, witness, con, both=True)
+    from .shared import rule_name_selection
+    rule_name_selection(ctx, r2, "the targets of `gwf cancel PATTERN...`")
     from .evalhelpers import eval_cancel
     from ..symeval import tok
     res, tb_cancel = eval_cancel(ctx)
